@@ -33,7 +33,7 @@ CHECKS = {
                      "exponent forms, escapes, prefixes) and of the malformed families M1..M13 in their contexts, runs the tokenizer machine on "
                      "each and evaluates ClassOK; departures of the transcribed implementation from the grammar are found inside the model. "
                      "Every behaviour is replayed into the real Lexer and judged by the same law.",
-                note="digit strings and contexts bounded per level; don't-care shapes listed in DESIGN 4.11"),
+                note="digit strings and contexts bounded (level 1 in both tiers: TLC cannot build the level-2 universe within the budget, DESIGN 0.6); don't-care shapes listed in DESIGN 4.11"),
     "C12": dict(ref="§4.12", tech="TLC model checking of LexerRespell.tla (two machine instances, RespellInv over every faithful respelling) + paired replay; RespellProg.tla program-level respellings replayed through the whole tool",
                 text="Two instances of the tokenizer machine run on a plain text and on every faithful respelling of it (digraph/trigraph per "
                      "character, none/one/two splices per token boundary); TLC checks that both produce the same (type, text) sequence for every "
